@@ -2,6 +2,7 @@ package node
 
 import (
 	"fmt"
+	"runtime"
 	"sort"
 	"strings"
 	"testing/synctest"
@@ -45,6 +46,7 @@ type nodeCfg struct {
 	overlapW                     int // a scrape in flight while an update is applied
 	minOps, maxOps               int
 	failW                        int // weight of failing scrapes (vs 10 success)
+	bigPayload                   bool
 }
 
 func modelRun(cfg nodeCfg) core.RunFunc {
@@ -304,6 +306,16 @@ func modelRunBubble(tp *core.Tape, e *core.Env, cfg nodeCfg) (ops []opRec) {
 				ns = 40
 			}
 			samples := GenSamples(tp, ns)
+			big := cfg.bigPayload && fail == "" && tp.Bool("big_payload", 1, 60)
+			if big {
+				// several 64 KiB parser blocks, handled by the unmarshal workers in parallel
+				base := GenSamples(tp, 40)
+				samples = nil
+				for len(samples) < 16000 {
+					samples = append(samples, base...)
+				}
+				e.Probe("multi_block_payload_parallel")
+			}
 			spec := &sidecarsim.TargetSpec{Payload: Render(samples, tp.Bool("extras", 1, 3), false, false), Fail: fail, Gzip: tp.Bool("gzip", 1, 4)}
 			if fail == "break" || fail == "timeout" {
 				spec.FailOffset = tp.Choose("fail_offset", len(spec.Payload)+1)
@@ -313,7 +325,14 @@ func modelRunBubble(tp *core.Tape, e *core.Env, cfg nodeCfg) (ops []opRec) {
 			}
 			n.Targets.Set(TargetHost(h), spec)
 			at := time.Now()
+			oldProcs := 0
+			if big {
+				oldProcs = runtime.GOMAXPROCS(8)
+			}
 			rr := n.ScrapeRec(h, job)
+			if big {
+				runtime.GOMAXPROCS(oldProcs)
+			}
 			total, kept, pm := Counts(samples, JobRelabel(job))
 			e.Logf("op %d scrape %d via %s fail=%q samples=%d kept=%d -> %d", i, h, job, fail, total, kept, rr.Code)
 			ops = append(ops, opRec{"scrape", fmt.Sprintf("%d via %s fail=%q samples=%d kept=%d", h, job, fail, total, kept)})
